@@ -178,6 +178,58 @@ theorem ber_loop_is_comparison (z b0 b1 b2 b3 b4 b5 b6 : Nat)
               · exact ⟨_, rfl, by omega⟩
               · exact ⟨_, rfl, by omega⟩
 
+/-- the 7 bytes of a 56-bit number, most significant first -/
+def bytes7 (B : Nat) : List Nat :=
+  [B / 2 ^ 48 % 256, B / 2 ^ 40 % 256, B / 2 ^ 32 % 256, B / 2 ^ 24 % 256, B / 2 ^ 16 % 256, B / 2 ^ 8 % 256, B % 256]
+
+/-- "the comparison loop reports below" -/
+def berBelow (z B : Nat) : Prop := ∃ w, berLoop z [56, 48, 40, 32, 24, 16, 8] (bytes7 B) = .ok w ∧ w < 0
+
+theorem berBelow_iff (z B : Nat) (hB : B < 2 ^ 56) : berBelow z B ↔ B < z / 2 ^ 8 % 2 ^ 56 := by
+  have e48 : (2 : Nat) ^ 48 = 281474976710656 := by decide
+  have e40 : (2 : Nat) ^ 40 = 1099511627776 := by decide
+  have e32 : (2 : Nat) ^ 32 = 4294967296 := by decide
+  have e24 : (2 : Nat) ^ 24 = 16777216 := by decide
+  have e16 : (2 : Nat) ^ 16 = 65536 := by decide
+  have e8 : (2 : Nat) ^ 8 = 256 := by decide
+  have e56 : (2 : Nat) ^ 56 = 72057594037927936 := by decide
+  obtain ⟨w, hw, hiff⟩ := ber_loop_is_comparison z (B / 2 ^ 48 % 256) (B / 2 ^ 40 % 256) (B / 2 ^ 32 % 256)
+    (B / 2 ^ 24 % 256) (B / 2 ^ 16 % 256) (B / 2 ^ 8 % 256) (B % 256)
+    (Nat.mod_lt _ (by decide)) (Nat.mod_lt _ (by decide)) (Nat.mod_lt _ (by decide)) (Nat.mod_lt _ (by decide))
+    (Nat.mod_lt _ (by decide)) (Nat.mod_lt _ (by decide)) (Nat.mod_lt _ (by decide))
+  have hsum : B / 2 ^ 48 % 256 * 2 ^ 48 + B / 2 ^ 40 % 256 * 2 ^ 40 + B / 2 ^ 32 % 256 * 2 ^ 32 + B / 2 ^ 24 % 256 * 2 ^ 24 +
+      B / 2 ^ 16 % 256 * 2 ^ 16 + B / 2 ^ 8 % 256 * 2 ^ 8 + B % 256 = B := by
+    rw [e56] at hB
+    rw [e48, e40, e32, e24, e16, e8]
+    omega
+  rw [hsum] at hiff
+  unfold berBelow bytes7
+  constructor
+  · rintro ⟨w', hw', hneg⟩
+    rw [hw] at hw'
+    have : w = w' := Res.ok.inj hw'
+    subst this
+    exact hiff.mp hneg
+  · intro h
+    exact ⟨w, hw, hiff.mpr h⟩
+
+open Classical in
+/-- **BerExp's acceptance law as a count**: of the 2^56 equally likely values of the 7 random bytes exactly
+    ⌊z / 2^8⌋ mod 2^56 make the comparison loop report "below" -/
+theorem ber_loop_count (z : Nat) :
+    ((Finset.range (2 ^ 56)).filter (fun B => berBelow z B)).card = z / 2 ^ 8 % 2 ^ 56 := by
+  have hT : z / 2 ^ 8 % 2 ^ 56 < 2 ^ 56 := Nat.mod_lt _ (by decide)
+  have : (Finset.range (2 ^ 56)).filter (fun B => berBelow z B) = Finset.range (z / 2 ^ 8 % 2 ^ 56) := by
+    ext B
+    simp only [Finset.mem_filter, Finset.mem_range]
+    constructor
+    · rintro ⟨hB, hb⟩
+      exact (berBelow_iff z B hB).mp hb
+    · intro h
+      have hB : B < 2 ^ 56 := by omega
+      exact ⟨hB, (berBelow_iff z B hB).mpr h⟩
+  rw [this, Finset.card_range]
+
 /-- **the integer part of BerExp, exactly**: with e = ApproxExp's value (≥ 1), the shift s and 7 random bytes read as the
     big-endian number B, the result is `true` exactly when B < ⌊((2e − 1) >> min(s, 63)) / 2^8⌋ mod 2^56 — in both build
     modes; so under uniform bytes the acceptance probability is that threshold over 2^56 -/
